@@ -268,12 +268,13 @@ func c11Fullness(c *Ctx, rule string) {
 			c.Undecided(rule, spec.fn+"|adds", "no cell-adding call found")
 			continue
 		}
+		cur := paramName(f, 1) // the node being inserted into (second parameter of both functions)
 		for i, a := range adds {
 			key := spec.fn + "|add#" + itoa(i+1)
 			loc, _ := g.Locate(a)
 			miss, _ := g.Forward(&loc, g.SuccessEdges, func(nn ast.Node, at Loc) Verdict {
 				for _, fc := range f.Calls(nn, false, "storage.btreeNode.isFull") {
-					if id, ok := ast.Unparen(fc.Fun.(*ast.SelectorExpr).X).(*ast.Ident); ok && id.Name == "curNode" {
+					if id, ok := ast.Unparen(fc.Fun.(*ast.SelectorExpr).X).(*ast.Ident); ok && id.Name == cur {
 						return Cut
 					}
 				}
@@ -479,12 +480,12 @@ func c11SplitArithmetic(c *Ctx, rule string) {
 		if len(call.Args) != 1 {
 			continue
 		}
-		if recv == "n" {
+		if recv == recvName(f) {
 			if i, fld := idxOf(call.Args[0]); fld == "fileOffset" && i == M {
 				oldRight = true
 			}
 		} else {
-			if sel, ok := ast.Unparen(call.Args[0]).(*ast.SelectorExpr); ok && exprKey(sel.X) == "n" {
+			if sel, ok := ast.Unparen(call.Args[0]).(*ast.SelectorExpr); ok && exprKey(sel.X) == recvName(f) {
 				if v := fieldVar(f, sel); v != nil && v.Name() == "rightOffset" {
 					newRight = true
 				}
@@ -497,7 +498,7 @@ func c11SplitArithmetic(c *Ctx, rule string) {
 	if newRight && oldRight {
 		var posNew, posOld token.Pos
 		for _, call := range f.Calls(body, false, "storage.btreeNode.setRightMostKey") {
-			if exprKey(call.Fun.(*ast.SelectorExpr).X) == "n" {
+			if exprKey(call.Fun.(*ast.SelectorExpr).X) == recvName(f) {
 				posOld = call.Pos()
 			} else {
 				posNew = call.Pos()
@@ -643,6 +644,16 @@ func c11ParentUpdate(c *Ctx, rule string) {
 			continue
 		}
 		n := 0
+		parent, cur := paramName(f, 0), paramName(f, 1)
+		newPg, newKey := "?", "?"
+		for _, sp := range f.Calls(f.Decl.Body, false, "storage.btreeNode.split") {
+			if len(sp.Args) == 1 {
+				newPg = exprKey(sp.Args[0])
+			}
+			if o := f.resultVar(f.Decl.Body, sp, 0); o != nil {
+				newKey = o.Name()
+			}
+		}
 		inspectBody(f.Decl.Body, func(x ast.Node) bool {
 			blk, ok := x.(*ast.BlockStmt)
 			if !ok {
@@ -651,12 +662,12 @@ func c11ParentUpdate(c *Ctx, rule string) {
 			var app, setR *ast.CallExpr
 			for _, st := range blk.List {
 				for _, call := range f.Calls(st, false, "storage.btreeNode.appendInternalCell") {
-					if exprKey(call.Fun.(*ast.SelectorExpr).X) == "parent" && enclosingBlockIs(blk, call, f) {
+					if exprKey(call.Fun.(*ast.SelectorExpr).X) == parent && enclosingBlockIs(blk, call, f) {
 						app = call
 					}
 				}
 				for _, call := range f.Calls(st, false, "storage.btreeNode.setRightMostKey") {
-					if exprKey(call.Fun.(*ast.SelectorExpr).X) == "parent" && enclosingBlockIs(blk, call, f) {
+					if exprKey(call.Fun.(*ast.SelectorExpr).X) == parent && enclosingBlockIs(blk, call, f) {
 						setR = call
 					}
 				}
@@ -669,12 +680,12 @@ func c11ParentUpdate(c *Ctx, rule string) {
 			child := exprKey(app.Args[1])
 			right := exprKey(setR.Args[0])
 			switch {
-			case child == "parent.rightOffset":
+			case child == parent+".rightOffset":
 				// append at right end of an existing parent
-				ok := right == "newPg.fileOffset" && app.Pos() < setR.Pos()
-				c.Check(ok, rule, key, app.Pos(), "separator keeps the old rightmost child, then the new page becomes rightmost", "existing parent: the separator must take parent.rightOffset BEFORE the rightmost child is replaced by newPg.fileOffset")
-			case child == "curNode.fileOffset":
-				ok := right == "newPg.fileOffset"
+				ok := right == newPg+".fileOffset" && app.Pos() < setR.Pos()
+				c.Check(ok, rule, key, app.Pos(), "separator keeps the old rightmost child, then the new page becomes rightmost", "existing parent: the separator must take the parent's previous rightmost child BEFORE the rightmost child is replaced by the new page")
+			case child == cur+".fileOffset":
+				ok := right == newPg+".fileOffset"
 				c.Check(ok, rule, key, app.Pos(), "new root: separator -> old page, rightmost -> new page", "new root: rightmost child must be the new page when the separator points at the old page")
 			default:
 				c.Fail(rule, key, app.Pos(), "the separator's child (%s) is neither the old page nor the parent's previous rightmost child", child)
@@ -688,7 +699,7 @@ func c11ParentUpdate(c *Ctx, rule string) {
 			key := name + "|parent-insert-middle"
 			okMid := false
 			for _, call := range f.Calls(f.Decl.Body, false, "storage.btreeNode.insertInternalCell") {
-				if len(call.Args) == 3 && exprKey(call.Args[1]) == "newKey" && exprKey(call.Args[2]) == "newPg.fileOffset" {
+				if len(call.Args) == 3 && exprKey(call.Args[1]) == newKey && exprKey(call.Args[2]) == newPg+".fileOffset" {
 					okMid = true
 				}
 			}
